@@ -262,6 +262,31 @@ def filter_rows(ln: Linked, fidx: int):
     return rows
 
 
+def ranking_entries_inactive(ctx, cfg: dict, call) -> str | None:
+    """A filter that is mapped to some function ranks *all* realizations by its key functions, so in a
+    function evaluation every (key function, realization) entry must be flagged as needed: an evaluator is
+    free to skip (or fill with anything) entries flagged inactive.  Returns a description or None."""
+    if call is None or call.kind not in ("f", "fg"):
+        return None
+    c = model.cfg_counts(cfg)
+    for fi, flt in enumerate(cfg.get("realization_filters") or []):
+        mapped = any(model.filter_of(cfg, k, j) == fi for k, n in (("o", c["no"]), ("c", c["nc"])) for j in range(n))
+        if not mapped:
+            continue
+        if flt["method"].endswith("objective"):
+            keys, act, what = list(flt["options"]["sort"]), call.active_objectives, "objective"
+        else:
+            keys, act, what = [int(flt["options"]["sort"])], call.active_constraints, "constraint"
+        if act is None:
+            continue
+        for k in keys:
+            for r in sorted({int(v) for v in call.realizations}):
+                if not act[k, r]:
+                    return (f"eval {call.k}: realization {r} is flagged inactive for {what} {k}, but filter {fi} "
+                            f"({flt['method']} {flt['options']}) ranks the realizations by that {what}")
+    return None
+
+
 def sort_key_values(cfg: dict, flt: dict, yo: np.ndarray, yc: np.ndarray | None) -> np.ndarray:
     """The value the filter ranks by (optimizer domain): weighted sum of the chosen objectives,
     or the chosen constraint."""
